@@ -94,7 +94,7 @@ theorem LInv.initCore (hA : LawfulArith A) (u : α) {q : α} {s0 : St α} (h : L
       show (s1.ballots.foldl (fcStep A) s1).sumVotes + A.zero = _
       rw [hsum, hA.zero_eq, add_zero]
   obtain ⟨c0, c1, c2, c3, c4, c5⟩ := hcore
-  refine ⟨⟨c1, c2, c3, ?_, ?_⟩, c0⟩
+  refine ⟨⟨c1, c2, c3, ?_, ?_, by rw [c4]; intro a ha; cases ha⟩, c0⟩
   · rw [c5, c4]; simp [nST]
   · intro l a hsuf
     rw [c4] at hsuf
@@ -531,11 +531,11 @@ theorem InvL.mplsElectSurplus (hex : A.exact = false) {s : St α} (h : InvL A u 
             unfold St.elect; rw [logAct_quota]; simp only at e4; exact e4
           rw [hq]
           exact hasQuotaGE_sound A hA hex s hc hcq)
-      obtain ⟨c0, c1, c2, c3, c4, c5⟩ := hpre
+      obtain ⟨c0, c1, c2, c3, c4, c4s, c5⟩ := hpre
       unfold Droop.mplsLogTransfer
       generalize Droop.surplusCore A (s3.elect A hc.cid "Elect" false) x (rewMulDiv A) = core at *
       have hst : isSTs "transfer" "Transfer surplus" = true := by decide
-      exact LInv.logAct' A u (s := core.setSurplus (mplsSurplusAll A core false)) c0 c1 c2 c3 c4
+      exact LInv.logAct' A u (s := core.setSurplus (mplsSurplusAll A core false)) c0 c1 c2 c3 c4 c4s
         "transfer" "Transfer surplus" [hc.cid] (by simp only [hst, if_true]; exact c5)
 
 omit hu hlow in
